@@ -36,6 +36,10 @@ def main():
             if hasattr(wl, "preload"):
                 wl.preload()
             ctx.paths.start()
+        if os.environ.get("BNPMON_NO_PRELUDE") != "1":
+            import random
+            from bnpmon.util import process_history_prelude
+            ctx.count("process_history_prelude_calls", process_history_prelude(random.Random(seed * 31 + shard)))
         wl.run(ctx)
         ctx.meta.setdefault("rule", getattr(wl, "RULE", ""))
         ctx.meta.setdefault("assumptions", getattr(wl, "ASSUMPTIONS", []))
